@@ -5,7 +5,7 @@
 
 use super::common::*;
 use crate::client::{Body, ClientSpec, EncVariant, KaId, Step};
-use crate::conn::{ConnCfg, ConnOutcome, ConnScenario, Wall, run_conn};
+use crate::conn::{ConnCfg, ConnOutcome, ConnScenario, Wall};
 use crate::rng::Rng;
 use crate::runner::{Check, RunReport, Tier};
 use crate::services::{DiscRes, Script, Services, StatusRes, StratRes};
